@@ -725,6 +725,8 @@ class P(Prop):
         (M, "TV.C02.operate_source_spaces", "operate on a string = operate on the string without its blanks (any spacing of the source)"),
         (M, "TV.C02.operate_source_starstar", "'**' written for '^'"),
         (M, "TV.C02.operate_source_reflexive", "reflexive forms 'lhs op= e' (op in + - * / ^ % !) are 'lhs = lhs op (e)'"),
+        (M, "TV.C02.aggregate_min_max", "T8: Min / Max as coded are the minimum / maximum of the vector (a value of it, nothing beyond it, NaN skipped) as soon as one value is inside the sentinels +-1e300"),
+        (M, "TV.C02.aggregate_sentinel", "T8': in general the result of Min / Max bounds every value and is a value strictly inside the sentinel, or the sentinel itself"),
         (M, "TV.C02.operate_no_externals", "Track.operate(expr, {}) (the machine reading the dictionary of externals) is Track.operate(expr)"),
         (M, "TV.C02.getitem_is_operate", "front end: Track[expr] is Track.operate(expr) as soon as the stripped string contains one of + - / * ^ > < ( ) = '"),
         (M, "TV.C02.operate_source_bare_minus", "a bare unary minus at the start, after '=', '(' or '{' is the parenthesised '(0-...)' form (one per application)"),
@@ -732,7 +734,7 @@ class P(Prop):
     partial = []
     open_statements = [
         "floating point: the laws of T5 (x*(1/s)=x/s, (1/x)*s=s/x) hold in exact arithmetic (shown for rationals with NaN) but only up to rounding for IEEE doubles - and not at all when the reciprocal overflows (subnormal divisor, class scalar-division-reciprocal-overflow); agreement of the computed doubles with ordinary arithmetic is decided by the transfer check against the independent Python oracle (IEEE evaluation of the documented definitions with a running error bound, relative tolerance 1e-9 at every magnitude)",
-        "the definitions of the functions (I D D2 ABS SQRT LOG DIODE SIGN EXP COS SIN TAN, SUM AVG VAR STD MSE RMSE MAD MIN MAX MEDIAN ARGMIN ARGMAX) are taken as coded in both denoteM and denote; their agreement with the documented formulas is checked by the Python oracle in the transfer check, not proved (it fails at the ends of the double range: classes abs-of-infinity, extremum-beyond-sentinel)",
+        "the definitions of the functions (I D D2 ABS SQRT LOG DIODE SIGN EXP COS SIN TAN, SUM AVG VAR STD MSE RMSE MAD MIN MAX MEDIAN ARGMIN ARGMAX) are taken as coded in both denoteM and denote; their agreement with the documented formulas is checked by the Python oracle in the transfer check, not proved - except MIN / MAX (T8: the minimum / maximum as soon as one value is inside the sentinels +-1e300; class extremum-beyond-sentinel otherwise) - and it fails for ABS at the infinities (class abs-of-infinity)",
         "source strings (T7): several bare unary minuses in one string, a sign directly after + or - ('a+-b', 'a--b'), the ' shorthand and names ending with '.' are outside the proved grammar (covered by the correspondence streams expr/str); error propagation (T6) excludes unbound names, unknown function names and a function applied to a bare number token, where the machine raises another error than the tree semantics (counter-examples in Lemmas/ExprErr.lean)",
     ]
     modelled = ("Track.__evaluate (replace chain, __specialOpChar, __convertReflexOperator, __unaryOp, f( -> f@( loops, #output prefix), "
